@@ -223,6 +223,128 @@ theorem inv_clear_setDict {s : St} (h : Inv s) (c : CId) (n : Name) (p : PId) :
       rw [this]
       exact h.coh c' k0 h0
 
+/-! ### Instances: every per-instance copy belongs to a name that is a Parameter of the class -/
+
+/-- per-instance Parameter copies exist only under names attribute lookup resolves on the class -/
+def InstOk (s : St) : Prop :=
+  ∀ (i : IId) (x : Inst) (n : Name) (ip : PId), s.insts[i]? = some x → aget x.iparams n = some ip →
+    (descriptor s x.cls n).isSome = true
+
+theorem findIn_mono {s s' : St} (hd : ∀ k n, (aget (clsDict s k) n).isSome = true → (aget (clsDict s' k) n).isSome = true)
+    (l : List CId) (n : Name) (h : (findIn s l n).isSome = true) : (findIn s' l n).isSome = true := by
+  induction l with
+  | nil => simp [findIn] at h
+  | cons k l ih =>
+    simp only [findIn] at h ⊢
+    cases ha : aget (clsDict s k) n with
+    | some p =>
+      have := hd k n (by rw [ha]; rfl)
+      cases ha' : aget (clsDict s' k) n with
+      | none => rw [ha'] at this; cases this
+      | some p' => rfl
+    | none =>
+      rw [ha] at h
+      cases aget (clsDict s' k) n with
+      | some p' => rfl
+      | none => exact ih h
+
+/-- attribute lookup keeps resolving when class dictionaries only gain entries -/
+theorem descriptor_mono {s s' : St} (hm : ∀ c, mroOf s' c = mroOf s c)
+    (hd : ∀ k n, (aget (clsDict s k) n).isSome = true → (aget (clsDict s' k) n).isSome = true)
+    (c : CId) (n : Name) (h : (descriptor s c n).isSome = true) : (descriptor s' c n).isSome = true := by
+  unfold descriptor at h ⊢; rw [hm]; exact findIn_mono hd _ n h
+
+theorem shape_of_classes {s s' : St} (h : s'.classes = s.classes) :
+    (∀ c, mroOf s' c = mroOf s c) ∧ (∀ k, clsDict s' k = clsDict s k) :=
+  ⟨fun c => by unfold mroOf; rw [h], fun k => by unfold clsDict; rw [h]⟩
+
+theorem nsRead_shape (s : St) (c : CId) :
+    (∀ c', mroOf (nsRead s c).1 c' = mroOf s c') ∧ (∀ k, clsDict (nsRead s c).1 k = clsDict s k) ∧
+      (nsRead s c).1.insts = s.insts ∧ (nsRead s c).1.heap = s.heap := by
+  unfold nsRead
+  split
+  · exact ⟨fun _ => rfl, fun _ => rfl, rfl, rfl⟩
+  · rename_i k hk
+    split
+    · exact ⟨fun _ => rfl, fun _ => rfl, rfl, rfl⟩
+    · have hlt : c < s.classes.length := by
+        rcases Nat.lt_or_ge c s.classes.length with h' | h'
+        · exact h'
+        · rw [List.getElem?_eq_none_iff.2 h'] at hk; cases hk
+      refine ⟨?_, ?_, rfl, rfl⟩
+      · intro c'
+        unfold mroOf
+        simp only [List.getElem?_set]
+        by_cases e : c = c'
+        · subst e; simp only [↓reduceIte, hlt, hk]
+        · simp [e]
+      · intro c'
+        unfold clsDict
+        simp only [List.getElem?_set]
+        by_cases e : c = c'
+        · subst e; simp only [↓reduceIte, hlt, hk]
+        · simp [e]
+
+theorem instOk_of {s s' : St} (hi : s'.insts = s.insts) (hm : ∀ c, mroOf s' c = mroOf s c)
+    (hd : ∀ k n, (aget (clsDict s k) n).isSome = true → (aget (clsDict s' k) n).isSome = true)
+    (h : InstOk s) : InstOk s' := by
+  intro i x n ip hx ha
+  rw [hi] at hx
+  exact descriptor_mono hm hd x.cls n (h i x n ip hx ha)
+
+theorem clsDict_clear_setDict_mono (s : St) (c : CId) (n : Name) (p : PId) (k : CId) (m : Name)
+    (h : (aget (clsDict s k) m).isSome = true) : (aget (clsDict (clearDesc (setDict s c n p) c) k) m).isSome = true := by
+  by_cases e : k = c
+  · subst e
+    unfold clearDesc setDict clsDict at *
+    cases hc : s.classes[k]? with
+    | none => rw [hc] at h; simp [aget] at h
+    | some kk =>
+      rw [hc] at h
+      have hlt : k < s.classes.length := by
+        rcases Nat.lt_or_ge k s.classes.length with h' | h'
+        · exact h'
+        · rw [List.getElem?_eq_none_iff.2 h'] at hc; cases hc
+      simp only [List.getElem?_map, List.getElem?_set, hlt, if_true, Option.map_some]
+      have key : (aget (aset kk.dict n p) m).isSome = true := by
+        rw [aget_aset]; split
+        · rfl
+        · exact h
+      split <;> exact key
+  · rw [clsDict_clear_setDict_ne s c n p e]; exact h
+
+theorem setDict_insts (s : St) (c : CId) (n : Name) (p : PId) : (setDict s c n p).insts = s.insts := by
+  unfold setDict; split <;> rfl
+
+theorem setDict_classes_heap (s : St) (h : List Param) (c : CId) (n : Name) (p : PId) :
+    (setDict { s with heap := h } c n p).classes = (setDict s c n p).classes := by
+  unfold setDict
+  show (match s.classes[c]? with | none => _ | some k => _ : St).classes = _
+  cases s.classes[c]? <;> rfl
+
+/-- installing a Parameter on a class keeps every per-instance copy resolvable -/
+theorem instOk_cow {s s' : St} (c : CId) (n : Name) (p : PId) (hi : s'.insts = s.insts)
+    (hcl : s'.classes = (clearDesc (setDict s c n p) c).classes) (h : InstOk s) : InstOk s' := by
+  obtain ⟨e1, e2⟩ := shape_of_classes hcl
+  exact instOk_of hi (fun c' => (e1 c').trans (mroOf_clear_setDict s c n p c'))
+    (fun k m hk => by rw [e2]; exact clsDict_clear_setDict_mono s c n p k m hk) h
+
+theorem instOk_cow1 (s : St) (h1 h2 : List Param) (c : CId) (n : Name) (p : PId) (h : InstOk s) :
+    InstOk { clearDesc (setDict { s with heap := h1 } c n p) c with heap := h2 } :=
+  instOk_cow c n p (by show (setDict { s with heap := h1 } c n p).insts = s.insts; rw [setDict_insts])
+    (by show (clearDesc (setDict { s with heap := h1 } c n p) c).classes = _
+        unfold clearDesc; simp only [setDict_classes_heap]) h
+
+theorem instOk_cow0 (s : St) (h1 : List Param) (c : CId) (n : Name) (p : PId) (h : InstOk s) :
+    InstOk (clearDesc (setDict { s with heap := h1 } c n p) c) :=
+  instOk_cow c n p (by show (setDict { s with heap := h1 } c n p).insts = s.insts; rw [setDict_insts])
+    (by unfold clearDesc; simp only [setDict_classes_heap]) h
+
+theorem instOk_cow2 (s : St) (h1 h2 : List Param) (c : CId) (n : Name) (p : PId) (h : InstOk s) :
+    InstOk (clearDesc { setDict { s with heap := h1 } c n p with heap := h2 } c) :=
+  instOk_cow c n p (by show (setDict { s with heap := h1 } c n p).insts = s.insts; rw [setDict_insts])
+    (by unfold clearDesc; simp only [setDict_classes_heap]) h
+
 theorem instantiated_classes {s s1 : St} {i : IId} {x : Inst} {n : Name} {p ip : PId}
     (h : instantiated s i x n p = .ok (s1, ip)) : s1.classes = s.classes := by
   unfold instantiated at h
